@@ -862,7 +862,9 @@ func c19Run(c c19Case, root string, r *c19Result) {
 						}
 					}
 					if beyond > 1 {
-						return recFail("%s: file %s (%d bytes) grew beyond the maximum of %d bytes by %d records", what, f.name, len(f.data), maxSize, beyond)
+						// whole records were counted: not an effect of a changed buffer
+						failf("%s: file %s (%d bytes) grew beyond the maximum of %d bytes by %d records", what, f.name, len(f.data), maxSize, beyond)
+						return false
 					}
 					if beyond == 1 {
 						r.classes["file-beyond-max-by-one-record"] = true
